@@ -77,7 +77,12 @@ Record nstate := {
   last_tick : option (bool * bool);   (* (changed, running) of the last completed tick *)
   notifies : N;                       (* ghost: notify calls from the worker *)
   injectors : list (N * N);           (* live injector handle -> stream id *)
-  post : postpc                       (* the pool thread between unlock and the end of its closure *)
+  post : postpc;                      (* the pool thread between unlock and the end of its closure *)
+  (* ghost state, never read by a step: bookkeeping for the statements of C13 / C19 *)
+  g_snap_begin : snapshot;            (* the snapshot when the tick in progress (or the last one) began *)
+  g_pub_begin : N;                    (* published items of the current stream at that moment *)
+  g_owed : bool                       (* a tick returned running = true and neither a worker notification
+                                         nor a later tick / restart has happened since *)
 }.
 
 Definition init_snapshot : snapshot := {| sn_count := 0; sn_matches := []; sn_pat := 0; sn_sid := 0 |}.
@@ -87,24 +92,29 @@ Definition init_worker : worker :=
 Definition init_nstate : nstate :=
   {| streams := [(0, [])]; cur := 0; next_sid := 1; ui_state := SInit; ui_pat := 0; ui_status := Unchanged;
      snap := init_snapshot; wk := init_worker; lock := Free; canceled := false; should_notify := false;
-     tpc := TIdle; last_tick := None; notifies := 0; injectors := []; post := PNone |}.
+     tpc := TIdle; last_tick := None; notifies := 0; injectors := []; post := PNone;
+     g_snap_begin := init_snapshot; g_pub_begin := 0; g_owed := false |}.
 
 (* ---- record updates ------------------------------------------------------------------------------- *)
-Definition upd_streams s v := {| streams := v; cur := cur s; next_sid := next_sid s; ui_state := ui_state s; ui_pat := ui_pat s; ui_status := ui_status s; snap := snap s; wk := wk s; lock := lock s; canceled := canceled s; should_notify := should_notify s; tpc := tpc s; last_tick := last_tick s; notifies := notifies s; injectors := injectors s; post := post s |}.
-Definition upd_cur s v n := {| streams := streams s; cur := v; next_sid := n; ui_state := ui_state s; ui_pat := ui_pat s; ui_status := ui_status s; snap := snap s; wk := wk s; lock := lock s; canceled := canceled s; should_notify := should_notify s; tpc := tpc s; last_tick := last_tick s; notifies := notifies s; injectors := injectors s; post := post s |}.
-Definition upd_ui_state s v := {| streams := streams s; cur := cur s; next_sid := next_sid s; ui_state := v; ui_pat := ui_pat s; ui_status := ui_status s; snap := snap s; wk := wk s; lock := lock s; canceled := canceled s; should_notify := should_notify s; tpc := tpc s; last_tick := last_tick s; notifies := notifies s; injectors := injectors s; post := post s |}.
-Definition upd_pat s p st := {| streams := streams s; cur := cur s; next_sid := next_sid s; ui_state := ui_state s; ui_pat := p; ui_status := st; snap := snap s; wk := wk s; lock := lock s; canceled := canceled s; should_notify := should_notify s; tpc := tpc s; last_tick := last_tick s; notifies := notifies s; injectors := injectors s; post := post s |}.
-Definition upd_snap s v := {| streams := streams s; cur := cur s; next_sid := next_sid s; ui_state := ui_state s; ui_pat := ui_pat s; ui_status := ui_status s; snap := v; wk := wk s; lock := lock s; canceled := canceled s; should_notify := should_notify s; tpc := tpc s; last_tick := last_tick s; notifies := notifies s; injectors := injectors s; post := post s |}.
-Definition upd_wk s v := {| streams := streams s; cur := cur s; next_sid := next_sid s; ui_state := ui_state s; ui_pat := ui_pat s; ui_status := ui_status s; snap := snap s; wk := v; lock := lock s; canceled := canceled s; should_notify := should_notify s; tpc := tpc s; last_tick := last_tick s; notifies := notifies s; injectors := injectors s; post := post s |}.
-Definition upd_lock s v := {| streams := streams s; cur := cur s; next_sid := next_sid s; ui_state := ui_state s; ui_pat := ui_pat s; ui_status := ui_status s; snap := snap s; wk := wk s; lock := v; canceled := canceled s; should_notify := should_notify s; tpc := tpc s; last_tick := last_tick s; notifies := notifies s; injectors := injectors s; post := post s |}.
-Definition upd_canceled s v := {| streams := streams s; cur := cur s; next_sid := next_sid s; ui_state := ui_state s; ui_pat := ui_pat s; ui_status := ui_status s; snap := snap s; wk := wk s; lock := lock s; canceled := v; should_notify := should_notify s; tpc := tpc s; last_tick := last_tick s; notifies := notifies s; injectors := injectors s; post := post s |}.
-Definition upd_notify s v := {| streams := streams s; cur := cur s; next_sid := next_sid s; ui_state := ui_state s; ui_pat := ui_pat s; ui_status := ui_status s; snap := snap s; wk := wk s; lock := lock s; canceled := canceled s; should_notify := v; tpc := tpc s; last_tick := last_tick s; notifies := notifies s; injectors := injectors s; post := post s |}.
-Definition upd_tpc s v := {| streams := streams s; cur := cur s; next_sid := next_sid s; ui_state := ui_state s; ui_pat := ui_pat s; ui_status := ui_status s; snap := snap s; wk := wk s; lock := lock s; canceled := canceled s; should_notify := should_notify s; tpc := v; last_tick := last_tick s; notifies := notifies s; injectors := injectors s; post := post s |}.
-Definition upd_last_tick s v := {| streams := streams s; cur := cur s; next_sid := next_sid s; ui_state := ui_state s; ui_pat := ui_pat s; ui_status := ui_status s; snap := snap s; wk := wk s; lock := lock s; canceled := canceled s; should_notify := should_notify s; tpc := TIdle; last_tick := Some v; notifies := notifies s; injectors := injectors s; post := post s |}.
-Definition upd_notifies s v := {| streams := streams s; cur := cur s; next_sid := next_sid s; ui_state := ui_state s; ui_pat := ui_pat s; ui_status := ui_status s; snap := snap s; wk := wk s; lock := lock s; canceled := canceled s; should_notify := should_notify s; tpc := tpc s; last_tick := last_tick s; notifies := v; injectors := injectors s; post := post s |}.
-Definition upd_injectors s v := {| streams := streams s; cur := cur s; next_sid := next_sid s; ui_state := ui_state s; ui_pat := ui_pat s; ui_status := ui_status s; snap := snap s; wk := wk s; lock := lock s; canceled := canceled s; should_notify := should_notify s; tpc := tpc s; last_tick := last_tick s; notifies := notifies s; injectors := v; post := post s |}.
+Definition upd_ghost s sb pb ow := {| streams := streams s; cur := cur s; next_sid := next_sid s; ui_state := ui_state s; ui_pat := ui_pat s; ui_status := ui_status s; snap := snap s; wk := wk s; lock := lock s; canceled := canceled s; should_notify := should_notify s; tpc := tpc s; last_tick := last_tick s; notifies := notifies s; injectors := injectors s; post := post s; g_snap_begin := sb; g_pub_begin := pb; g_owed := ow |}.
 
-Definition upd_post s v := {| streams := streams s; cur := cur s; next_sid := next_sid s; ui_state := ui_state s; ui_pat := ui_pat s; ui_status := ui_status s; snap := snap s; wk := wk s; lock := lock s; canceled := canceled s; should_notify := should_notify s; tpc := tpc s; last_tick := last_tick s; notifies := notifies s; injectors := injectors s; post := v |}.
+Definition upd_streams s v := {| streams := v; cur := cur s; next_sid := next_sid s; ui_state := ui_state s; ui_pat := ui_pat s; ui_status := ui_status s; snap := snap s; wk := wk s; lock := lock s; canceled := canceled s; should_notify := should_notify s; tpc := tpc s; last_tick := last_tick s; notifies := notifies s; injectors := injectors s; post := post s; g_snap_begin := g_snap_begin s; g_pub_begin := g_pub_begin s; g_owed := g_owed s |}.
+Definition upd_cur s v n := {| streams := streams s; cur := v; next_sid := n; ui_state := ui_state s; ui_pat := ui_pat s; ui_status := ui_status s; snap := snap s; wk := wk s; lock := lock s; canceled := canceled s; should_notify := should_notify s; tpc := tpc s; last_tick := last_tick s; notifies := notifies s; injectors := injectors s; post := post s; g_snap_begin := g_snap_begin s; g_pub_begin := g_pub_begin s; g_owed := g_owed s |}.
+Definition upd_ui_state s v := {| streams := streams s; cur := cur s; next_sid := next_sid s; ui_state := v; ui_pat := ui_pat s; ui_status := ui_status s; snap := snap s; wk := wk s; lock := lock s; canceled := canceled s; should_notify := should_notify s; tpc := tpc s; last_tick := last_tick s; notifies := notifies s; injectors := injectors s; post := post s; g_snap_begin := g_snap_begin s; g_pub_begin := g_pub_begin s; g_owed := g_owed s |}.
+Definition upd_pat s p st := {| streams := streams s; cur := cur s; next_sid := next_sid s; ui_state := ui_state s; ui_pat := p; ui_status := st; snap := snap s; wk := wk s; lock := lock s; canceled := canceled s; should_notify := should_notify s; tpc := tpc s; last_tick := last_tick s; notifies := notifies s; injectors := injectors s; post := post s; g_snap_begin := g_snap_begin s; g_pub_begin := g_pub_begin s; g_owed := g_owed s |}.
+Definition upd_snap s v := {| streams := streams s; cur := cur s; next_sid := next_sid s; ui_state := ui_state s; ui_pat := ui_pat s; ui_status := ui_status s; snap := v; wk := wk s; lock := lock s; canceled := canceled s; should_notify := should_notify s; tpc := tpc s; last_tick := last_tick s; notifies := notifies s; injectors := injectors s; post := post s; g_snap_begin := g_snap_begin s; g_pub_begin := g_pub_begin s; g_owed := g_owed s |}.
+Definition upd_wk s v := {| streams := streams s; cur := cur s; next_sid := next_sid s; ui_state := ui_state s; ui_pat := ui_pat s; ui_status := ui_status s; snap := snap s; wk := v; lock := lock s; canceled := canceled s; should_notify := should_notify s; tpc := tpc s; last_tick := last_tick s; notifies := notifies s; injectors := injectors s; post := post s; g_snap_begin := g_snap_begin s; g_pub_begin := g_pub_begin s; g_owed := g_owed s |}.
+Definition upd_lock s v := {| streams := streams s; cur := cur s; next_sid := next_sid s; ui_state := ui_state s; ui_pat := ui_pat s; ui_status := ui_status s; snap := snap s; wk := wk s; lock := v; canceled := canceled s; should_notify := should_notify s; tpc := tpc s; last_tick := last_tick s; notifies := notifies s; injectors := injectors s; post := post s; g_snap_begin := g_snap_begin s; g_pub_begin := g_pub_begin s; g_owed := g_owed s |}.
+Definition upd_canceled s v := {| streams := streams s; cur := cur s; next_sid := next_sid s; ui_state := ui_state s; ui_pat := ui_pat s; ui_status := ui_status s; snap := snap s; wk := wk s; lock := lock s; canceled := v; should_notify := should_notify s; tpc := tpc s; last_tick := last_tick s; notifies := notifies s; injectors := injectors s; post := post s; g_snap_begin := g_snap_begin s; g_pub_begin := g_pub_begin s; g_owed := g_owed s |}.
+Definition upd_notify s v := {| streams := streams s; cur := cur s; next_sid := next_sid s; ui_state := ui_state s; ui_pat := ui_pat s; ui_status := ui_status s; snap := snap s; wk := wk s; lock := lock s; canceled := canceled s; should_notify := v; tpc := tpc s; last_tick := last_tick s; notifies := notifies s; injectors := injectors s; post := post s; g_snap_begin := g_snap_begin s; g_pub_begin := g_pub_begin s; g_owed := g_owed s |}.
+Definition upd_tpc s v := {| streams := streams s; cur := cur s; next_sid := next_sid s; ui_state := ui_state s; ui_pat := ui_pat s; ui_status := ui_status s; snap := snap s; wk := wk s; lock := lock s; canceled := canceled s; should_notify := should_notify s; tpc := v; last_tick := last_tick s; notifies := notifies s; injectors := injectors s; post := post s; g_snap_begin := g_snap_begin s; g_pub_begin := g_pub_begin s; g_owed := g_owed s |}.
+Definition upd_last_tick0 s v := {| streams := streams s; cur := cur s; next_sid := next_sid s; ui_state := ui_state s; ui_pat := ui_pat s; ui_status := ui_status s; snap := snap s; wk := wk s; lock := lock s; canceled := canceled s; should_notify := should_notify s; tpc := TIdle; last_tick := Some v; notifies := notifies s; injectors := injectors s; post := post s; g_snap_begin := g_snap_begin s; g_pub_begin := g_pub_begin s; g_owed := g_owed s |}.
+(* tick returns: record the status; a `running` answer creates the notification obligation *)
+Definition upd_last_tick s (v : bool * bool) := let s' := upd_last_tick0 s v in upd_ghost s' (g_snap_begin s') (g_pub_begin s') (snd v).
+Definition upd_notifies s v := {| streams := streams s; cur := cur s; next_sid := next_sid s; ui_state := ui_state s; ui_pat := ui_pat s; ui_status := ui_status s; snap := snap s; wk := wk s; lock := lock s; canceled := canceled s; should_notify := should_notify s; tpc := tpc s; last_tick := last_tick s; notifies := v; injectors := injectors s; post := post s; g_snap_begin := g_snap_begin s; g_pub_begin := g_pub_begin s; g_owed := g_owed s |}.
+Definition upd_injectors s v := {| streams := streams s; cur := cur s; next_sid := next_sid s; ui_state := ui_state s; ui_pat := ui_pat s; ui_status := ui_status s; snap := snap s; wk := wk s; lock := lock s; canceled := canceled s; should_notify := should_notify s; tpc := tpc s; last_tick := last_tick s; notifies := notifies s; injectors := v; post := post s; g_snap_begin := g_snap_begin s; g_pub_begin := g_pub_begin s; g_owed := g_owed s |}.
+
+Definition upd_post s v := {| streams := streams s; cur := cur s; next_sid := next_sid s; ui_state := ui_state s; ui_pat := ui_pat s; ui_status := ui_status s; snap := snap s; wk := wk s; lock := lock s; canceled := canceled s; should_notify := should_notify s; tpc := tpc s; last_tick := last_tick s; notifies := notifies s; injectors := injectors s; post := v; g_snap_begin := g_snap_begin s; g_pub_begin := g_pub_begin s; g_owed := g_owed s |}.
 
 Definition w_upd (w : worker) running wc last inf ms p sid : worker :=
   {| w_running := running; w_was_canceled := wc; w_last := last; w_in_flight := inf; w_matches := ms; w_pat := p; w_sid := sid |}.
@@ -333,7 +343,7 @@ Definition step_run (s : nstate) (seen : list N) (end_ : N) : nstate :=
   | PUnlocked completed =>
     (* fence; read the flag *)
     upd_post s (if completed && should_notify s then PNotify else PDone)
-  | PNotify => upd_post (upd_notifies s (notifies s + 1)) PDone
+  | PNotify => let s' := upd_post (upd_notifies s (notifies s + 1)) PDone in upd_ghost s' (g_snap_begin s') (g_pub_begin s') false
   | PDone => upd_post s PNone
   | PNone =>
     match lock s with
@@ -377,11 +387,14 @@ Definition do_event (s : nstate) (e : event) : nstate :=
     let nsid := next_sid s1 in
     let s2 := upd_cur (upd_streams s1 (set_stream nsid [] (streams s1))) nsid (nsid + 1) in
     let s3 := upd_ui_state s2 SCleared in
-    if clear then upd_snap s3 {| sn_count := 0; sn_matches := []; sn_pat := sn_pat (snap s3); sn_sid := nsid |} else s3
+    let s4 := upd_ghost s3 (g_snap_begin s3) (g_pub_begin s3) false in
+    if clear then upd_snap s4 {| sn_count := 0; sn_matches := []; sn_pat := sn_pat (snap s4); sn_sid := nsid |} else s4
     | _ => s end
   | ETickBegin t0 =>
     match tpc s with
-    | TIdle => upd_tpc (upd_notify s false) (TBegun t0)
+    | TIdle =>
+      let s' := upd_tpc (upd_notify s false) (TBegun t0) in
+      upd_ghost s' (snap s) (lenN (filter (fun b => b) (stream_of (cur s) (streams s)))) false
     | _ => s
     end
   | ETick => if enabled_tick s then step_tick s else s
